@@ -1,6 +1,8 @@
 //! kvh — verification harness driving the real KyroDB engine code in-process.
 mod proto;
+mod codec;
 mod configeng;
+mod damage;
 mod mem;
 mod persist;
 mod qcache;
@@ -24,6 +26,7 @@ fn main() {
         Some("ratelimit") => ratelimit::run(),
         Some("validate") => validate::run(),
         Some("mem") => mem::run(),
+        Some("codec") => codec::run(),
         _ => {
             eprintln!("usage: kvh <engine>");
             std::process::exit(2);
